@@ -30,6 +30,7 @@ Step(e) ==
       [] e.ev = "Witness"  -> Witness(e.x)
       [] e.ev = "Dupl"     -> ChooseDupl(PairSet(e.pairs))
       [] e.ev = "Mode"     -> ChooseMode(e.m)
+      [] e.ev = "Form"     -> ChooseForm(e.f)
       [] OTHER             -> FALSE
 
 \* structural well-formedness of an observation (a malformed one is a harness defect)
